@@ -107,7 +107,24 @@ func runRaceOps(res *core.Result, d caseData, verbose bool) {
 		}
 		scen := fmt.Sprintf("free-running %d goroutines x %d ops from %s ledger", d.G, d.M, start)
 		nv := len(res.Violations)
-		j := judge(res, w, ops, scen, d.Driver, "(free running)")
+		// The log/ledger oracle is applied to plain installs/upgrades only: --replace and
+		// --history-max have schedule-dependent defects that the gate monitor reports with stable
+		// signatures; free-running repetitions with those flags serve race detection only.
+		flagged := limit > 0
+		for _, o := range ops {
+			if o.op.Replace {
+				flagged = true
+			}
+		}
+		var j judged
+		if flagged {
+			res.Stat("race_ops_runs_race_detection_only", 1)
+			for _, o := range ops {
+				j.outcomes = append(j.outcomes, errClass(o.err))
+			}
+		} else {
+			j = judge(res, w, ops, scen, d.Driver, "(free running)", start == "empty")
+		}
 		res.Evals++
 		res.Stat("race_ops_runs", 1)
 		res.Stat("race_ops_executed", int64(len(ops)))
